@@ -5339,7 +5339,19 @@ def ck3(m, run, classes, keys_of, rule='CK3.cache-keys-exist-on-new-objects-and-
                     miss = [k for k in keys if k not in c1]
                     full = [k for k in keys if k in c1 and c1[k]]
                     twice = [(k1, k2) for i_, k1 in enumerate(keys) for k2 in keys[i_ + 1:] if k1 in c1 and k2 in c1 and isinstance(c1[k1], (list, dict)) and c1[k1] is c1[k2]]
-                    if twice:
+                    # a copy starts with empty caches also when the caches of its source are filled: whoever edits the copy next (a transform
+                    # without inplace edits the elements of a copied container) would otherwise be answered from the source's cached data
+                    if not twice and not miss and not full:
+                        for k_ in keys:
+                            c0[k_] = [[Tok('DEF', dep=frozenset([('cached', k_, c_)])) for c_ in range(3)]]        # (a cached list of one point)
+                        cp2 = BUILTINS['deepcopy'].f(sk, None, obj)
+                        c2 = cp2._a.get('_cache') if isinstance(cp2, Bag) else None
+                        carried = [k_ for k_ in keys if isinstance(c2, dict) and c2.get(k_)]
+                        if carried:
+                            why = 'the deep copy of an object whose cache entry %r is filled starts with that entry filled too: the copy answers from data computed for its source' % carried[0]
+                    if why:
+                        pass
+                    elif twice:
                         why = 'the cache entries %r and %r of a deep copy are one and the same list' % twice[0]
                     elif miss:
                         why = 'the deep copy has no cache entry %r (its cache is a fresh dictionary that nobody fills with the keys): reading it on a copy raises KeyError' % miss[0]
